@@ -177,8 +177,17 @@ func (p *polling) onDataRequest(ctx *types.HttpContext) {
 		packet = types.NewStringBuffer(nil)
 	}
 	if body := ctx.Request().Body; body != nil {
-		packet.ReadFrom(body)
+		// Content-Length was checked above, but a body of unknown length (chunked)
+		// has none: never read more than the limit allows
+		n, _ := packet.ReadFrom(io.LimitReader(body, p.MaxHttpBufferSize()+1))
 		body.Close()
+		if n > p.MaxHttpBufferSize() {
+			cleanup()
+
+			ctx.SetStatusCode(http.StatusRequestEntityTooLarge)
+			ctx.Write(nil)
+			return
+		}
 	}
 	p.Proto().OnData(packet)
 
